@@ -226,7 +226,7 @@ func (BackendUnsupported) SelectObjectContent(ctx context.Context, input *s3.Sel
 	return func(w *bufio.Writer) {
 		var getProgress s3select.GetProgress
 		progress := input.RequestProgress
-		if progress != nil && *progress.Enabled {
+		if progress != nil && progress.Enabled != nil && *progress.Enabled {
 			getProgress = func() (bytesScanned int64, bytesProcessed int64) {
 				return -1, -1
 			}
